@@ -1304,3 +1304,8 @@ package mcp
 // unregister from inside, and a slow handler must not stall writers
 //@ sweepscope[C12] kinds=unlockedcallbacks files=manager_tools.go,manager_prompt.go,manager_resource.go,manager_lifecycle.go,handler.go,server.go,sse_server.go,stdio_server.go,streamable_server.go
 //@
+// C05 / C11 — a session's listening stream is torn down wholesale only when the session itself has ended
+//@ func httpServerHandler.cleanupSession
+//@   callers-checked C05, C11
+//@   requires[C05,C11 only-an-ended-session-loses-its-stream-wholesale] !live(sessionID)
+//@
